@@ -63,6 +63,8 @@ pub(crate) mod verif_sem {
         let mut stamp = [0u32; K];
         let mut clock = 0u32;
         let mut ever = [false; K]; // slot was polled at least once (symmetry breaking)
+        let mut dead = [false; K]; // slot's future was dropped and not re-created yet
+        let mut dsn = [[0u32; 2]; K]; // wake counts of its two wakers just before the drop
         let mut fresh = [true; K]; // current future of the slot not polled yet
         // reference ledger: permits() must equal it
         let mut ledger: usize = init;
@@ -90,6 +92,7 @@ pub(crate) mod verif_sem {
                     q[i] = s.below(4) as usize;
                     *f = ManuallyDrop::new(sem.acquire(q[i]));
                     alive[i] = true;
+                    dead[i] = false;
                     fresh[i] = true;
                     oracle!(p, P17, !f.is_terminated(), "C17 semaphore: fresh acquire future reports terminated");
                 }
@@ -165,6 +168,8 @@ pub(crate) mod verif_sem {
                     }
                     if others && !older { bits |= W_CANCEL_HEAD; }
                 }
+                dsn[i] = match i { 0 => [c0a.n(), c0b.n()], 1 => [c1a.n(), c1b.n()], _ => [c2a.n(), c2b.n()] };
+                dead[i] = true;
                 unsafe { ManuallyDrop::drop(f) };
                 alive[i] = false;
                 pending[i] = false;
@@ -241,6 +246,12 @@ pub(crate) mod verif_sem {
                 }
                 let np = pending[0] as u8 + pending[1] as u8 + pending[2] as u8;
                 if was_release && np >= 2 && h < K && [wk0, wk1, wk2][h] { bits |= W_RELEASE_WAKES_HEAD; }
+            }
+            if (p & P01) != 0 {
+                // C01: a dropped future is in no wait queue any more, so its task is never woken again
+                if dead[0] { assert!(c0a.n() == dsn[0][0] && c0b.n() == dsn[0][1], "C01 semaphore: the task of a dropped future was woken (dangling waiter)"); }
+                if dead[1] { assert!(c1a.n() == dsn[1][0] && c1b.n() == dsn[1][1], "C01 semaphore: the task of a dropped future was woken (dangling waiter)"); }
+                if dead[2] { assert!(c2a.n() == dsn[2][0] && c2b.n() == dsn[2][1], "C01 semaphore: the task of a dropped future was woken (dangling waiter)"); }
             }
             if (p & P17) != 0 {
                 if alive[0] { assert!(f0.is_terminated() == done[0], "C17 semaphore: is_terminated() differs from 'completed'"); }
@@ -681,6 +692,8 @@ pub(crate) mod verif_sem {
         hist_proof!(hist_c06_u_p1s_n5, NoopLock, 5, P06, 0 | (1 << 2) | (1 << 6), 6);
         hist_proof!(hist_c06_u_p2s_n6, NoopLock, 6, P06, 0 | (2 << 2) | (1 << 6), 7);
         hist_proof!(hist_c05_x_p1s_n5, NoopLock, 5, P05, 2 | (1 << 2) | (1 << 6), 6);
+        hist_proof!(hist_c01_x_p1s_n5, NoopLock, 5, P01, 2 | (1 << 2) | (1 << 6), 6);
+        hist_proof!(hist_c17_x_p1s_n5, NoopLock, 5, P17, 2 | (1 << 2) | (1 << 6), 6);
         hist_proof!(hist_c06_u_k1_n5, NoopLock, 5, P06, 0 | (1 << 4), 6);
         hist_proof!(hist_c06_u_k2_n5, NoopLock, 5, P06, 0 | (2 << 4), 6);
         hist_proof!(hist_c05_x_k1_n5, NoopLock, 5, P05, 2 | (1 << 4), 6);
